@@ -16,7 +16,7 @@ META = {
                     'lexical lifetimes: a local holds its register until the end of its block'],
     'floors': {'alloc_events': 100, 'expected_refusals_observed': 3, 'directed_single_mention': 100},
 }
-SIZES = {'quick': 4000, 'thorough': 80000}
+SIZES = {'quick': 12000, 'thorough': 80000}
 
 def judge(ctx, cfg, body, req, resp, langtag, general_use=None, pool_sizes=None):
     if 'abort' in resp or 'inconclusive' in resp:
